@@ -1,5 +1,6 @@
 import RedactVerif.Props.L2
 import RedactVerif.Props.FactsReset
+import RedactVerif.Props.FactsSkelPrinter
 /-
 C15 — HelperForErrorf returns the %w operand and the Sprintf text.
 
